@@ -49,12 +49,12 @@ func RefEnd(client bool, id gmref.Identity, seed byte, setup func(p *gmref.Peer)
 
 // RefOutcome is the result of a session between a library endpoint and a scripted reference peer.
 type RefOutcome struct {
-	Lib     View
-	Ref     RefView
-	Horizon bool
-	Stuck   []string // endpoints that never finished although their input ended
+	Lib      View
+	Ref      RefView
+	Horizon  bool
+	Stuck    []string // endpoints that never finished although their input ended
 	LibStuck bool
-	Records []wire.Record
+	Records  []wire.Record
 }
 
 // PingPong is the default data phase of a reference peer: the client writes "ping" and expects
